@@ -66,10 +66,12 @@ def oracle(case: dict) -> Outcome:
     for si, s in enumerate(case["steps"]):
         ea = A.raw_step(s)
         eb = B.raw_step(s)
-        if ea is not None and eb is None and type(ea).__name__ == "BackendCompilerFailed" and "share the same storage" in str(ea) and "dynamic" in str(ea):
+        if ea is not None and eb is None and type(ea).__name__ == "BackendCompilerFailed" and (
+                ("share the same storage" in str(ea) and "dynamic" in str(ea)) or (case["dyn"] != "static" and "SymInt" in str(ea))):
             # torch 2.5 AOTAutograd refuses graphs in which several *aliased* inputs (blocks are views of one parameter) are mutated while
             # compiled with dynamic shapes.  The compiler rejects the program before anything is computed: this is a limitation of the
-            # toolchain under (auto-)dynamic shapes, not a different update; the case is excluded and counted.
+            # toolchain under (auto-)dynamic shapes, not a different update; the case is excluded and counted.  The same holds for the
+            # internal "unhashable type: non-nested SymInt" failure of the aot_eager backend after a dynamic-shape recompilation.
             out.classes.append("compiler_rejected_aliased_dynamic_graph")
             out.excluded += 1
             break
